@@ -380,6 +380,27 @@ func run(line string) (out string) {
 		return runRTR(unhex(f[1]))
 	case "bfd":
 		return runBFD(unhex(f[1]))
+	case "rtrnew":
+		// rtrnew <v6> <plen> <maxlen> <as> <flags>: the constructor, then Serialize + ParseRTR
+		var v6, pl, ml, as, fl uint64
+		fmt.Sscan(f[1], &v6)
+		fmt.Sscan(f[2], &pl)
+		fmt.Sscan(f[3], &ml)
+		fmt.Sscan(f[4], &as)
+		fmt.Sscan(f[5], &fl)
+		addr := netip.MustParseAddr("10.1.2.3")
+		if v6 == 1 {
+			addr = netip.MustParseAddr("2001:db8::1")
+		}
+		p := rtr.NewRTRIPPrefix(addr, uint8(pl), uint8(ml), uint32(as), uint8(fl))
+		if p == nil {
+			return "nil"
+		}
+		b, err := p.Serialize()
+		if err != nil {
+			return "serr"
+		}
+		return runRTR(b)
 	case "splitmrt":
 		return split(mrt.SplitMrt, f[1] == "1", unhex(f[2]), unhex(f[3]))
 	case "splitbmp":
